@@ -124,6 +124,13 @@ CHECKS = {
         "is seen, a join completes, cardinality grows and members are released on leader silence, break-up or leave.",
         "Depth-bounded exhaustiveness (quick 6, thorough 7) relative to the alphabet; duration clauses judged at update() instants; CPM-reason break-up is a recorded known finding.",
     ),
+    "C12": (
+        "model-based history testing of the LDM facade (hypothesis operation lists on a virtual clock) against a reference map and two registries",
+        "Long histories of register/deregister, add, update, delete, request, maintenance and clock advances are applied to the real facade from "
+        "LDMFactory; every response is predicted by a reference map id -> record and after every step all stored objects and both registries are "
+        "read back and compared (content, timestamp, location, validity, provider, identifiers never reused, refused requests without effect).",
+        "Sampled histories (quick <= 120 operations, thorough <= 300); one-second validity band; no persistence verdict outside the area of maintenance; three recorded known findings (area collection, unregistered update/delete).",
+    ),
 }
 
 NOT_APPLICABLE = {
